@@ -65,6 +65,13 @@ def matrix(thorough):
     ptext = "\n".join(encoders.leeds(r) for r in photo_lines()) + "\n"
     for model, sh in (("hh93", {}), ("hh93i", {"H2": "L96Table", "CO": "V09Table", "N2": "L13Table"})):
         cases.append((f"grain-surface-photo-{model}", {"files": [{"name": "p.leeds", "content": ptext}], "network": {"filelist": "p.leeds", "fileformats": "leeds", "grain_model": model, "shielding": sh}}, ["dense", "odeint"]))
+    # dust grains as species of the network (grain charging in the native format) next to each dust model
+    charging = "\n".join(encoders.naunet(r) for r in [
+        {"reactants": ["GRAIN0", "e-"], "products": ["GRAIN-"], "a": "1.000e-10", "b": "0.000e+00", "c": "0.000e+00", "tmin": "-1.00", "tmax": "-1.00", "idx": 901, "code": 100},
+        {"reactants": ["GRAIN-", "H+"], "products": ["GRAIN0", "H"], "a": "1.000e-10", "b": "0.000e+00", "c": "0.000e+00", "tmin": "-1.00", "tmax": "-1.00", "idx": 902, "code": 100}]) + "\n"
+    for name, fmt, model, mk, user in c11.CASES[:5]:
+        text = "\n".join(encoders.ENC[fmt](r) for r in mk()) + "\n"
+        cases.append((f"grain-species-{name}", {"files": [{"name": f"n.{fmt}", "content": text}, {"name": "charging.naunet", "content": charging}], "network": {"filelist": [f"n.{fmt}", "charging.naunet"], "fileformats": [fmt, "naunet"], "grain_model": model}}, ["dense", "sparse", "odeint"] if model == "rr07" else ["dense"]))
     # mixtures of formats
     cases.append(("mix-kida+krome", {"network": {"filelist": [f"{TD}/minimal.kida", f"{TD}/minimal.krome"], "fileformats": ["kida", "krome"]}}, backs))
     cases.append(("mix-krome+kida", {"network": {"filelist": [f"{TD}/minimal.krome", f"{TD}/minimal.kida"], "fileformats": ["krome", "kida"]}}, ["dense"]))
